@@ -105,7 +105,7 @@ SHAPES = {
     "parentheses-dropped-regrouping:XOR": dict(
         avoid=["same-op-right"],
         probe=_schema("FUNCTION f(a, b, c : LOGICAL) : LOGICAL;\n  RETURN (a XOR (b XOR c));\nEND_FUNCTION;")),
-    "printed-text-not-iso:non-ISO chain of relational operators (expression = simple_expr": dict(
+    "printed-relational-chain-not-iso": dict(
         avoid=["same-op-right"],
         probe=_schema("FUNCTION f(a : LOGICAL; b, c : INTEGER) : LOGICAL;\n  RETURN (a = (b = c));\nEND_FUNCTION;")),
     "supertype-expression-regrouped": dict(
@@ -383,7 +383,6 @@ def main(tier, seed):
 
     build.ensure("plain")
     root = common.scratch("c07")
-    norm_doc = expparse.Norm.__init__.__code__.co_consts
     ev.assumptions = [
         "the EXPRESS reference is ISO 10303-11:2004 (clause 7 tokens, clause 12 operator precedence, annex A syntax) as implemented by the "
         "independent lib/exptok.py + lib/expparse.py; their agreement with the generator's own model is self-tested (lib/explang_selftest.py) "
@@ -436,7 +435,7 @@ def main(tier, seed):
     # number of Hypothesis examples drawn. 7 of 8 chunks use the generator's "fast" mode (one Hypothesis draw seeds all
     # choices of a file: independent examples), 1 of 8 the pure mode (every choice a Hypothesis draw; the engine's
     # mutation step then yields families of similar files, repeated texts are merged)
-    n_schemas, nopts = (1600, 3) if tier == "quick" else (12000, 6)
+    n_schemas, nopts = (2800, 3) if tier == "quick" else (10000, 6)
     if os.environ.get("C07_N"):
         n_schemas = int(os.environ["C07_N"])
     nchunks = 32 if tier == "quick" else 96
@@ -666,7 +665,7 @@ def main(tier, seed):
         rc_final = max(rc_final, 3)
 
     wall = time.time() - t_start
-    if rc_final == 0 and (ev.evaluations < (1500 if tier == "quick" else 10000)):
+    if rc_final == 0 and (ev.evaluations < (3000 if tier == "quick" else 20000)):
         print("machinery failure: only %d cases executed" % ev.evaluations)
         rc_final = 3
     ev.write()
